@@ -914,12 +914,15 @@ IMPL_ONLY = [
 ]
 
 
-def _text_job(conn, text):
+def _text_job(conn, text, raw=False):
+    """raw: the statement is handed to Cursor.execute as a str (parsed inside execute, in the thread; this is the
+    path on which anything keyed by the statement TEXT would act), else as a freshly copied parsed statement."""
     def job():
         try:
             cur = conn.cursor()
-            cur.execute(_parsed_copy(text))
-            return [str(c.name) for c in cur.description], [[str(v) for v in row] for row in cur.fetchall()]
+            cur.execute(text if raw else _parsed_copy(text))
+            return ([f'{c.name}:{getattr(c.datatype, "__name__", c.datatype)}' for c in cur.description],
+                    [[f'{type(v).__name__}:{v}' for v in row] for row in cur.fetchall()])
         except HarnessError:
             raise
         except Exception as e:  # noqa: BLE001
@@ -930,11 +933,12 @@ def _text_job(conn, text):
 def _impl_only_unit(args):
     texts, topo, schedules = args[:3]
     led = args[3] if len(args) > 3 else L_IO
+    raw = bool(args[4]) if len(args) > 4 else False
 
     def jobs():
         # always freshly loaded ledgers: the serial reference must not share data with the scheduled runs
         shared = connection(led, fresh=True)
-        return [_text_job(shared if topo == 'shared-connection' else connection(led, fresh=True), t) for t in texts]
+        return [_text_job(shared if topo == 'shared-connection' else connection(led, fresh=True), t, raw) for t in texts]
     ser = [j() for j in jobs()]
     segs = []
     for i, j in enumerate(jobs()):
@@ -951,33 +955,215 @@ def _impl_only_unit(args):
     return ser, [run_threads(s, jobs())[0] for s in schedules]
 
 
-def check_impl_only(rng, cap):
+# Generated scenario FAMILIES outside the model language, derived from the property text ("on one shared connection or
+# on separate connections", "aggregates, subqueries", "all interleavings of their row and sub-expression evaluation
+# steps").  What they add to the fixed pairs above:
+#   same-text:   every thread runs the IDENTICAL statement, handed to Cursor.execute as a str without parameters (so
+#                parsing, compilation and anything keyed by the statement text happen inside the threads), with yield
+#                points BETWEEN the targets of a finalised group (vyield over an aggregate value), inside aggregate
+#                arguments and group keys (scan phase), and in plain / subquery statements;
+#   from-subquery-namespace: every thread selects from a FROM-subquery; the subqueries use the same column names for
+#                different positions and types; yield points at COMPILE time (vyield of a constant is folded while
+#                the targets / WHERE are compiled, i.e. after the FROM clause has been compiled and before the
+#                later column references are bound) and at run time.
+AGG_POOL = [('count(*)', True), ('count(number)', True), ('sum(number)', True), ('sum(position)', True),
+            ('max(number)', True), ('min(day)', True), ('first(number)', True), ('last(day)', True),
+            ('last(year)', True), ('max(date)', False), ('min(narration)', False), ('count(payee)', True)]
+
+
+def gen_same_text(rng, i):
+    """-> (name, texts, ledger, raw=True, info)"""
+    fl = i % 4
+    n = 3 if i % 5 == 4 else 2
+    if fl in (0, 1):
+        # yield points in the result phase only: between the aggregate values of one finalised group
+        key = rng.choice(['account', 'year', 'day'])
+        k = rng.randint(2, 4)
+        aggs = rng.sample(AGG_POOL, k)
+        while not any(ok for _, ok in aggs[:k - 1]):
+            aggs = rng.sample(AGG_POOL, k)
+        wrap = {rng.choice([j for j in range(k - 1) if aggs[j][1]])} | {j for j in range(k) if rng.random() < 0.4}
+        ts = [f'vyield({a})' if (j in wrap and ok) else a for j, (a, ok) in enumerate(aggs)]
+        text = f'SELECT {key}, ' + ', '.join(ts) + f' GROUP BY {key}'
+        if rng.random() < 0.3:
+            text += ' HAVING count(*) > 0'
+        if rng.random() < 0.5:
+            text += ' ORDER BY 1' + rng.choice(['', ' DESC'])
+        shape = 'aggregate/yield-between-group-values'
+    elif fl == 2:
+        # scan-phase and result-phase yield points
+        k = rng.randint(2, 3)
+        aggs = rng.sample([a for a in AGG_POOL if a[1]], k)
+        ts = []
+        for a, _ in aggs:
+            r = rng.random()
+            if r < 0.4 and '(*)' not in a and 'payee' not in a and 'position' not in a:
+                f, arg = a[:-1].split('(')
+                ts.append(f'{f}(vyield({arg}))')
+            elif r < 0.8:
+                ts.append(f'vyield({a})')
+            else:
+                ts.append(a)
+        key = rng.choice(['vyield(year)', 'year', 'account'])
+        text = f'SELECT {key} AS k, ' + ', '.join(ts) + ' GROUP BY 1'
+        shape = 'aggregate/yield-in-scan-and-result-phase'
+    else:
+        text = rng.choice([
+            'SELECT vyield(year), balance, vyield(number), account',
+            'SELECT balance, vyield(day), balance WHERE number > 0',
+            'SELECT vyield(day), year IN (SELECT vyield(year) FROM #postings WHERE number > 4), balance',
+            'SELECT vyield(y), b, vyield(n) FROM (SELECT year AS y, balance AS b, number AS n FROM #postings WHERE number > 0)',
+            'SELECT DISTINCT vyield(year) AS y, account ORDER BY 2, 1 LIMIT 4',
+            'SELECT account, vyield(year) AS y, vyield(sum(number)) AS s GROUP BY 1, 2 PIVOT BY 1, 2',
+        ])
+        shape = 'plain/subquery/pivot'
+    return (f'same-text{i}', [text] * n, L_IO, True, {'family': 'same-text', 'shape': shape, 'threads': n})
+
+
+FS_INNER = [('account', 'str'), ('number', 'dec'), ('year', 'int'), ('day', 'int'), ('narration', 'str'),
+            ('position', 'pos'), ('date', 'date')]
+
+
+def gen_fromsub(rng, i):
+    """-> (name, texts, ledger, raw, info): statements over FROM-subqueries whose column names collide"""
+    n = 3 if i % 5 == 4 else 2
+    k = rng.choice([2, 2, 3])
+    names = ['a', 'b', 'c'][:k]
+    base = rng.sample(FS_INNER, k)
+    texts = []
+    layouts = []
+    for t in range(n):
+        if t == 0:
+            cols = list(base)
+            nm = list(names)
+        elif i % 3 == 0:
+            # the same name -> expression mapping, other positions
+            perm = list(range(k))
+            while perm == list(range(k)):
+                rng.shuffle(perm)
+            cols = [base[j] for j in perm]
+            nm = [names[j] for j in perm]
+        elif i % 3 == 1:
+            # the same positions, the names rotated (other expression / type under each name)
+            cols = list(base)
+            nm = names[t % k:] + names[:t % k]
+        else:
+            cols = rng.sample(FS_INNER, k)
+            nm = rng.sample(names, k)
+        layouts.append(list(zip(nm, [c for c, _ in cols])))
+        inner = 'SELECT ' + ', '.join(f'{c} AS {a}' for (c, _), a in zip(cols, nm)) + ' FROM #postings' + \
+            rng.choice(['', ' WHERE number > 0', ' WHERE number < 0'])
+        typ = {a: ty for (_, ty), a in zip(cols, nm)}
+        grouped = rng.random() < 0.25 and any(typ[a] in ('str', 'int') for a in nm)
+        cy = f'vyield({t + 1})'
+        if grouped:
+            g = rng.choice([a for a in nm if typ[a] in ('str', 'int')])
+            others = [a for a in nm if a != g]
+            ts = [g, cy] + [f'count({a})' for a in others]
+            if rng.random() < 0.5:
+                ts = [cy] + ts[:1] + ts[2:]
+            # a constant target of an aggregate query has to be covered by GROUP BY as well
+            outer = 'SELECT ' + ', '.join(ts) + f' FROM ({inner}) GROUP BY 1, 2'
+        else:
+            refs = rng.sample(nm, k) + [rng.choice(nm) for _ in range(rng.randint(0, 1))]
+            ts = [f'vyield({a})' if typ[a] in ('int', 'dec') and rng.random() < 0.3 else a for a in refs]
+            # compile-time yield points: always one before the first column reference is bound or between two of them
+            ts.insert(rng.randint(0, len(ts) - 1), cy)
+            if rng.random() < 0.3:
+                ts.insert(rng.randint(0, len(ts)), f'vyield({10 + t})')
+            outer = 'SELECT ' + ', '.join(ts) + f' FROM ({inner})'
+            num = [a for a in nm if typ[a] in ('int', 'dec')]
+            if num and rng.random() < 0.4:
+                outer += f' WHERE {rng.choice(num)} > vyield(-1000)'
+            if rng.random() < 0.3:
+                outer += f' ORDER BY {rng.choice([a for a in nm if typ[a] != "pos"] or nm[:1])}'
+        texts.append(outer)
+    return (f'from-subquery-namespace{i}', texts, L_IO, i % 2 == 1,
+            {'family': 'from-subquery-namespace', 'shape': ['same-map/other-positions', 'same-positions/names-rotated', 'random'][i % 3],
+             'threads': n})
+
+
+def family_scenarios(rng, n_same, n_fs):
+    return [gen_same_text(rng, i) for i in range(n_same)] + [gen_fromsub(rng, i) for i in range(n_fs)]
+
+
+def _differs(texts, topo, sched, led, raw):
+    ser, res = _impl_only_unit((texts, topo, [sched], led, raw))
+    return res[0] != ser
+
+
+def check_impl_only(rng, cap, families=(), targeted=False):
+    """Fixed scenario pairs + generated families, every topology, under driven schedules, against the serial results
+    (and the serial results of the two topologies against each other).  targeted: the inventory found a shared cell -
+    search harder (all interleavings of small cases, more random schedules) for a schedule that shows it."""
     viol, runs, errs = [], 0, 0
     units, meta = [], []
-    for name, texts, led in [(n, t, 'meta') for n, t in IMPL_ONLY_META] + [(n, t, L_IO) for n, t in IMPL_ONLY]:
+    fam = {'scenarios': collections.Counter(), 'runs': collections.Counter(), 'shape_hist': collections.Counter(),
+           'threads_hist': collections.Counter(), 'yield_points_per_thread': collections.Counter(),
+           'raw_text_runs': 0, 'statements_raising': 0, 'samples': []}
+    scen = [(n, t, 'meta', False, None) for n, t in IMPL_ONLY_META] + [(n, t, L_IO, False, None) for n, t in IMPL_ONLY]
+    scen += list(families)
+    sigs = set()
+    for name, texts, led, raw, info in scen:
+        sers = {}
         for topo in ('shared-connection', 'connection-per-thread'):
-            ser, segs = _impl_only_unit((texts, topo, None, led))
-            errs += sum(1 for r in ser if r and r[0] == 'exception')
-            if sum(segs) <= 14 and cap >= 3432:
+            ser, segs = _impl_only_unit((texts, topo, None, led, raw))
+            sers[topo] = ser
+            nraise = sum(1 for r in ser if r and r[0] == 'exception')
+            errs += nraise
+            if info:
+                fam['scenarios'][info['family']] += 1
+                fam['shape_hist'][info['shape']] += 1
+                fam['threads_hist'][info['threads']] += 1
+                fam['statements_raising'] += nraise
+                for k in segs:
+                    fam['yield_points_per_thread'][min(k - 1, 40) // 5 * 5] += 1
+                if topo == 'shared-connection' and len(fam['samples']) < 14 and (info['family'] != 'same-text' or len(fam['samples']) < 7):
+                    fam['samples'].append(' || '.join(texts))
+            small = sum(segs) <= 14
+            if small and (cap >= 3432 or targeted):
                 scheds = all_interleavings(segs)[0]
             else:
-                scheds = pick_schedules(rng, segs, min(cap, 150))
+                scheds = pick_schedules(rng, segs, min(cap, 150) if not targeted else 150)
             for j in range(0, len(scheds), 8):
-                units.append((texts, topo, scheds[j:j + 8], led))
-                meta.append((name, topo, texts, scheds[j:j + 8], led))
+                units.append((texts, topo, scheds[j:j + 8], led, raw))
+                meta.append((name, topo, texts, scheds[j:j + 8], led, raw, info))
+        if sers['shared-connection'] != sers['connection-per-thread'] and len(sigs) < 3:
+            sig = f'topology-dependent:{name}: ' + ' || '.join(texts)
+            sigs.add(sig)
+            viol.append(core.Violation(
+                'topology-dependent-serial-result',
+                f'{" || ".join(texts)}: executed one after the other on ONE shared connection the statements return '
+                f'{sers["shared-connection"]}, on one fresh connection each {sers["connection-per-thread"]}',
+                {'texts': texts, 'topology': 'both', 'schedule': [], 'ledger': led, 'raw': raw,
+                 'serial_shared': sers['shared-connection'], 'serial_separate': sers['connection-per-thread']},
+                signature=sig))
     outs = core.pmap(_impl_only_unit, units, chunksize=1)
-    for (name, topo, texts, scheds, led), (ser, res) in zip(meta, outs):
+    seen_names = set()
+    for (name, topo, texts, scheds, led, raw, info), (ser, res) in zip(meta, outs):
         for s, r in zip(scheds, res):
             runs += 1
-            if r != ser and not viol:
-                sig = f'schedule-dependent:{name}:{topo}: ' + ' || '.join(texts) + f' schedule={s}'
+            if info:
+                fam['runs'][info['family']] += 1
+                fam['raw_text_runs'] += 1 if raw else 0
+            if r != ser and name not in seen_names and len(sigs) < 3:
+                seen_names.add(name)
+                small = ddmin(s, lambda s2: _differs(texts, topo, s2, led, raw), max_tests=40) if s else s
+                ser2, res2 = _impl_only_unit((texts, topo, [small], led, raw))
+                if res2[0] == ser2:      # not reproducible after shrinking: keep the schedule as observed
+                    small, ser2, res2 = s, ser, [r]
+                sig = f'schedule-dependent:{name}:{topo}: ' + ' || '.join(texts) + f' schedule={small}'
+                sigs.add(sig)
                 viol.append(core.Violation('schedule-dependent-result',
-                                           f'{topo}: {" || ".join(texts)} schedule={s}: threads return {r} but serial '
-                                           f'execution returns {ser}',
-                                           {'texts': texts, 'topology': topo, 'schedule': s, 'serial': ser, 'scheduled': r,
-                                            'ledger': led},
+                                           f'{topo}: {" || ".join(texts)}{" [statements given as text]" if raw else ""} '
+                                           f'schedule={small}: threads return {res2[0]} but serial '
+                                           f'execution returns {ser2}',
+                                           {'texts': texts, 'topology': topo, 'schedule': small, 'serial': ser2,
+                                            'scheduled': res2[0], 'ledger': led, 'raw': raw},
                                            signature=sig))
-    return runs, errs, viol
+    fam = {k: (dict(sorted(v.items(), key=lambda kv: str(kv[0]))) if isinstance(v, collections.Counter) else v)
+           for k, v in fam.items()}
+    return runs, errs, viol, fam
 
 
 # text statements (parsed inside Cursor.execute, in the threads), free running: SMOKE STREAM, but a failure is a violation
@@ -1070,13 +1256,7 @@ def run(tier, rng):
         violations.append(core.Violation('threadsafety', f'beanquery.threadsafety = {beanquery.threadsafety!r}, expected 2',
                                          {'threadsafety': repr(beanquery.threadsafety)}, signature='threadsafety'))
     inv = gen_inventory()
-    for cell, name in inv['cells'][:3]:
-        violations.append(core.Violation(
-            'shared-cell', f'process-wide state written at query time: {name} ({cell}); the hypothesis '
-            f'query_time_shared_cells = [] of C20_isolation does not hold for this tree '
-            f'(changed by the workload: {inv["changed"]}, functools caches: {inv["caches"]})',
-            {'cell': cell, 'name': name, 'changed_by_workload': inv['changed'], 'functools_caches': inv['caches'],
-             'workload': [q for q, _ in WORKLOAD]}, signature='shared-cell:' + name))
+    pre = len(violations)
     quick = tier == 'quick'
     corpus = corpus_cases()
     nsched = 8 if quick else 40
@@ -1106,8 +1286,27 @@ def run(tier, rng):
         head = [(n, c) for n, c in corpus if n == 'double-balance'][:1]
         stats3, v = check_cases(head, lambda c, segs: all_interleavings(segs)[0], 'c20c')
         violations += v
-    io_runs, io_errs, v = check_impl_only(rng, 10 if quick else 3432)
+    # generated families outside the model language; a shared cell in the inventory triggers the targeted search
+    fams = family_scenarios(rng, 8 if quick else 40, 9 if quick else 45)
+    io_runs, io_errs, v, fam_cov = check_impl_only(rng, 10 if quick else 3432, fams, targeted=bool(inv['cells']))
     violations += v
+    # the inventory's cells, each with a concrete schedule (when the driven runs found one) as witness
+    witness = next((x.detail for x in violations if x.kind in ('schedule-dependent-result', 'topology-dependent-serial-result')),
+                   None)
+    cellv = []
+    for cell, name in inv['cells'][:3]:
+        cellv.append(core.Violation(
+            'shared-cell', f'state shared between threads is written at query time: {name} ({cell}); the hypothesis '
+            f'query_time_shared_cells = [] of C20_isolation does not hold for this tree '
+            f'(changed by the workload: {inv["changed"]}, functools caches: {inv["caches"]}, class-level containers '
+            f'written through self: {inv.get("class_writes", [])}); '
+            + (f'witness schedule: {_witness_text(witness)}' if witness else 'the targeted schedule search found no '
+               'schedule-dependent result'),
+            {'cell': cell, 'name': name, 'changed_by_workload': inv['changed'], 'functools_caches': inv['caches'],
+             'class_level_containers_written_through_self': inv.get('class_writes', []),
+             'connection_attributes': inv.get('conn_attrs', {}), 'witness': witness,
+             'workload': [q for q, _ in WORKLOAD]}, signature='shared-cell:' + name, found_input=witness is not None))
+    violations[pre:pre] = cellv
     fr_runs, fr_bad = free_running(rng, 3 if quick else 30)
     ts_runs, ts_bad = text_stress(1, per_thread=8) if quick else text_stress(4, per_thread=25)
     if ts_bad:
@@ -1155,6 +1354,8 @@ def run(tier, rng):
         'impl_only_runs_outside_model_language': io_runs,
         'impl_only_statements_raising': io_errs,
         'impl_only_scenarios': [n for n, _ in IMPL_ONLY_META + IMPL_ONLY],
+        'generated_families': fam_cov,
+        'targeted_search': bool(inv['cells']),
     })
     for k in ('feature_hist', 'yields_per_thread', 'schedules_per_case', 'switches_hist', 'error_results', 'row_results'):
         cov[k] = m[k]
@@ -1177,18 +1378,33 @@ def _fix_case(case):
     return case
 
 
+def _witness_text(w):
+    if 'texts' in w:
+        return f'{w["topology"]}: {" || ".join(w["texts"])} schedule={w["schedule"]}'
+    return describe(w['case'], w.get('schedule'))
+
+
 def replay(rec):
-    if 'case' not in rec:
-        if 'threadsafety' in rec:
-            return beanquery.threadsafety == 2
-        return not gen_inventory()['cells']
+    if 'cell' in rec:
+        # the inventory must be empty AND the witness schedule (if one was found) must give the serial results
+        ok = not gen_inventory()['cells']
+        w = rec.get('witness')
+        return (replay(w) if w else True) and ok
+    if 'threadsafety' in rec:
+        return beanquery.threadsafety == 2
     if rec.get('text_stress'):
         return all(not text_stress(1)[1] for _ in range(3))
     if 'texts' in rec:
         led = rec.get('ledger', L_IO)
         led = led if led == 'meta' else [(y, d, list(a)) for y, d, a in led]
-        ser, res = _impl_only_unit((rec['texts'], rec['topology'], [rec['schedule']], led))
+        raw = bool(rec.get('raw'))
+        if rec['topology'] == 'both':
+            return _impl_only_unit((rec['texts'], 'shared-connection', None, led, raw))[0] == \
+                _impl_only_unit((rec['texts'], 'connection-per-thread', None, led, raw))[0]
+        ser, res = _impl_only_unit((rec['texts'], rec['topology'], [rec['schedule']], led, raw))
         return res[0] == ser
+    if 'case' not in rec:
+        return not gen_inventory()['cells']
     case = _fix_case(rec['case'])
     if 'schedule' not in rec:
         return free_running_case(case)
@@ -1431,6 +1647,14 @@ WORKLOAD = [
     ("SELECT account, count(meta('ref')), count(any_meta('nokey')) GROUP BY account ORDER BY account", None),
     ("SELECT meta, entry.meta, tags, links, other_accounts FROM #postings", None),
     ("SELECT id, type, meta('ref'), meta FROM #entries", None),
+    # FROM-subqueries (their tables and column namespaces are built at compile time), nested, grouped, with other names
+    ('SELECT y, b FROM (SELECT year AS y, balance AS b FROM #postings WHERE number > 0)', None),
+    ('SELECT b, y, n FROM (SELECT number AS n, year AS y, account AS b FROM #postings) WHERE n < 0 ORDER BY b', None),
+    ('SELECT a, count(n) FROM (SELECT account AS a, number AS n FROM (SELECT account, number FROM #postings)) GROUP BY a', None),
+    ('SELECT * FROM (SELECT type AS t, count(*) AS c FROM #entries GROUP BY 1)', None),
+    # the same texts again: anything keyed by the statement text is hit a second time
+    ('SELECT year, sum(number), last(balance), count(*) GROUP BY 1 ORDER BY 1', None),
+    ('SELECT y, b FROM (SELECT year AS y, balance AS b FROM #postings WHERE number > 0)', None),
 ]
 
 
@@ -1442,9 +1666,18 @@ def _workload():
         fp0 = _fp(conn.tables, 5, set())
         fp1 = _conn_fp(conn)
         fp2 = ledger_fp(conn)
+        attrs = _conn_attrs(conn)
         prev = '(attach)'
         for q, params in WORKLOAD + [('SELECT 1', None)]:
             n += 1
+            # every attribute of the Connection object: a new or changed one is state shared by the threads that
+            # share the connection (a per-connection cache); its size is followed over the workload
+            now = _conn_attrs(conn)
+            for a in sorted(set(now) | set(attrs)):
+                if now.get(a) != attrs.get(a):
+                    rec = CONN_ATTR_CHANGES.setdefault(a, {'first_changed_after': prev[:70], 'sizes': []})
+                    rec['sizes'].append(now.get(a, (None, None))[1])
+            attrs = now
             if _conn_fp(conn) != fp1:
                 return n, [f'<connection>.tables after workload statement: {prev[:70]}']
             if ledger_fp(conn) != fp2:
@@ -1477,6 +1710,112 @@ def _workload():
     return n, []
 
 
+CONN_ATTR_CHANGES = {}
+
+
+def _conn_attrs(conn):
+    """{attribute: (fingerprint, size)} of the Connection object itself, apart from tables/options/errors, which
+    _conn_fp and ledger_fp follow (deeper)"""
+    out = {}
+    for a, v in vars(conn).items():
+        if a in ('tables', 'options', 'errors'):
+            continue
+        try:
+            size = len(v)
+        except TypeError:
+            size = None
+        out[a] = (_fp(v, 3, set()), size)
+    return out
+
+
+def _self_attr(node, selfname):
+    import ast
+    if isinstance(node, ast.Attribute) and isinstance(node.value, ast.Name) and node.value.id == selfname:
+        return node.attr
+    return None
+
+
+MUTATORS = {'append', 'extend', 'insert', 'update', 'setdefault', 'add', 'pop', 'popitem', 'clear', 'remove', 'discard',
+            'appendleft', 'popleft', 'sort', 'reverse', '__setitem__', '__delitem__'}
+
+
+def _fn_self_writes(f):
+    """(attributes of self that the function rebinds: self.a = ..., attributes whose CONTENT it writes:
+    self.a[k] = v, del self.a[k], self.a.append(..) ...) from the function's source"""
+    import ast
+    import inspect
+    import textwrap
+    try:
+        tree = ast.parse(textwrap.dedent(inspect.getsource(f)))
+    except Exception:  # noqa: BLE001
+        return set(), set()
+    fn = next((x for x in ast.walk(tree) if isinstance(x, (ast.FunctionDef, ast.AsyncFunctionDef))), None)
+    if fn is None or not fn.args.args:
+        return set(), set()
+    me = fn.args.args[0].arg
+    bound, written = set(), set()
+    for x in ast.walk(fn):
+        if isinstance(x, (ast.Assign, ast.AnnAssign, ast.AugAssign)):
+            tgts = x.targets if isinstance(x, ast.Assign) else [x.target]
+            for t in tgts:
+                for y in ast.walk(t):
+                    a = _self_attr(y, me)
+                    if a is not None and y is t and not isinstance(x, ast.AugAssign):
+                        bound.add(a)
+                    elif a is not None and y is t:
+                        written.add(a)
+                    if isinstance(y, ast.Subscript) and _self_attr(y.value, me) is not None:
+                        written.add(_self_attr(y.value, me))
+        elif isinstance(x, ast.Delete):
+            for t in x.targets:
+                if isinstance(t, ast.Subscript) and _self_attr(t.value, me) is not None:
+                    written.add(_self_attr(t.value, me))
+        elif isinstance(x, ast.Call) and isinstance(x.func, ast.Attribute) and x.func.attr in MUTATORS:
+            a = _self_attr(x.func.value, me)
+            if a is not None:
+                written.add(a)
+    return bound, written
+
+
+def _class_container_writes():
+    """STATIC: mutable containers living on a CLASS of the beanquery modules (class body attribute, also inherited)
+    whose content an instance method writes through self while no __init__ along the MRO (nor the method itself)
+    gives the instance its own container of that name: every instance - every statement, connection and thread -
+    then writes the one class-level object.  -> [(qualified container name, 'Class.method')]"""
+    out = {}
+    for mn in _modules():
+        m = sys.modules[mn]
+        for cn, cls in sorted(vars(m).items()):
+            if not isinstance(cls, type) or cls.__module__ != mn:
+                continue
+            cont = {}
+            for base in cls.__mro__:
+                if not (base.__module__ or '').startswith('beanquery'):
+                    continue
+                for an, o in vars(base).items():
+                    if isinstance(o, MUTABLE) and not an.startswith('__'):
+                        cont.setdefault(an, base)
+            if not cont:
+                continue
+            own = set()
+            for base in cls.__mro__:
+                f = vars(base).get('__init__')
+                if isinstance(f, pytypes.FunctionType):
+                    own |= _fn_self_writes(f)[0]
+            for base in cls.__mro__:
+                if not (base.__module__ or '').startswith('beanquery'):
+                    continue
+                for fname, f in sorted(vars(base).items()):
+                    if not isinstance(f, pytypes.FunctionType):
+                        continue        # classmethods/staticmethods: registration at import time
+                    bound, written = _fn_self_writes(f)
+                    for a in sorted(written):
+                        if a in cont and a not in own and a not in bound:
+                            owner = cont[a]
+                            out.setdefault(f'{owner.__module__}.{owner.__qualname__}.{a}', f'{cls.__qualname__}.{fname}')
+    return sorted(out.items())
+
+
 def _conn_fp(conn):
     return _fp([conn.tables, conn.options.get('dcontext') is not None, len(conn.errors)], 4, set())
 
@@ -1501,10 +1840,14 @@ def gen_inventory():
         return _INV
     items, caches = _state_items()
     before = _snapshot()
+    CONN_ATTR_CHANGES.clear()
     nwork, conn_changed = _workload()
     after = _snapshot()
     changed = sorted(k for k in set(before) | set(after) if before.get(k) != after.get(k))
     changed += conn_changed
+    conn_attrs = {f'<connection>.{a}': dict(r, grows=len(set(r['sizes'])) > 1) for a, r in sorted(CONN_ATTR_CHANGES.items())}
+    changed += [k for k in conn_attrs if k not in changed]
+    class_writes = _class_container_writes()
     cells = []
     for q, o in caches:
         w = getattr(o, '__wrapped__', None)
@@ -1516,6 +1859,9 @@ def gen_inventory():
     for k in changed:
         if k not in cache_names:
             cells.append((f'CUnknown {cs(k)}', k))
+    for q, meth in class_writes:
+        if q not in changed:
+            cells.append((f'CUnknown {cs(q)}', q))
     instances = _stateful_instances(items)
     for q, cls, is_tatsu in instances:
         # parsing machinery keeps the text, position, stacks and memo tables of the parse in progress on the instance
@@ -1528,6 +1874,8 @@ def gen_inventory():
         'snapshot_entries': len(before), 'workload': nwork, 'changed': changed, 'cells': cells,
         'instances': instances,
         'astw': compile_writes_statement(),
+        'conn_attrs': conn_attrs,
+        'class_writes': [f'{q} written by {m}' for q, m in class_writes],
     }
     return _INV
 
@@ -1547,8 +1895,12 @@ def generate():
    (b) dynamic diff: structural fingerprint of all of them (and of the module/class level scalars) before and
        after a workload of statements (queries with balance, aggregates, subqueries, parameters, BALANCES,
        JOURNAL, PIVOT, OPEN/CLOSE/CLEAR, rendering, failing statements, re-executed parsed statements).
+   (c) every attribute of the Connection objects used by the workload (fingerprint and size after every statement):
+       a new or changed attribute is a per-connection cell, shared by the threads that share the connection;
+   (d) static scan of the methods of every class for writes THROUGH self into a mutable container that lives on
+       the class (no __init__ along the MRO gives the instance its own).
    A container that the workload does not change is a registry (read-only after import); a functools cache or
-   anything changed by the workload is a cell shared by all threads at query time. *)
+   anything changed by the workload or found by (c)/(d) is a cell shared by threads at query time. *)
 From Coq Require Import ZArith List String.
 Import ListNotations.
 From Verif Require Import Model.Threads.
@@ -1599,5 +1951,7 @@ Definition query_time_shared_cells : list cell_id :=
             'registries': [q for q, t, n in regs],
             'module_level_stateful_instances': [f'{q} : {c}' for q, c, _ in inv['instances']],
             'ledger_data_fingerprinted_after_every_workload_statement': True,
+            'connection_attributes_changed_by_workload': inv['conn_attrs'],
+            'class_level_containers_written_through_self': inv['class_writes'],
         }
     }
